@@ -901,6 +901,8 @@ class FnTr:
             return
         if k == "for":
             return self.for_stmt(s)
+        if k == "fn":
+            raise Unsupported(f"nested fn {s[1].name} (translated separately when listed)")
         raise Unsupported(f"statement {k}")
 
     def if_stmt(self, e):
